@@ -78,6 +78,28 @@ def run(tier):
             okw = okw and bool(pushes) and all(pb in cfg.blocks_reachable_from(f, [wb]) for pb in pushes)
         rep.check(okw, "adjacent-value-recorded", short(fk), "the position after a JSON-like key is no longer recorded in adjacent_value_allowed_at on every "
                   "accepting path: `\"a\":1` inside a flow collection stops being a key/value pair", site=f.span, detail=det)
+    # (d) inside a flow collection a pending simple key is never given up because of its length or because it spans lines
+    # (JSON member names and their ':' may be arbitrarily far apart): in stale_simple_keys every `possible = false` and every error
+    # is dominated by the true edge of `flow_level == 0`
+    ssk = F.fn(S + "stale_simple_keys")
+    sinks = set(cfg.err_sink_blocks(ssk))
+    for bi, si, s in cfg.stmts(ssk):
+        if s["k"] == "assign" and cfg.place_fields(s["lhs"])[-1:] == ["possible"]:
+            sinks.add(bi)
+    okf = bool(sinks)
+    for sb in sinks:
+        g = False
+        for b2 in ssk.dominators().get(sb, ()):
+            t2 = ssk.blocks[b2]["term"]
+            if t2["k"] != "switch":
+                continue
+            e2 = cfg.expr_operand(ssk, t2["discr"], 6)
+            if e2[0] == "bin" and e2[1] == "Eq" and cfg.expr_fields(e2[2]) == ["flow_level"] and e2[3] == ("const", 0):
+                if cfg.dominated_by_edge(ssk, sb, b2, t2["otherwise"]):
+                    g = True
+        okf = okf and g
+    rep.check(okf, "flow-keys-never-stale", "stale_simple_keys", "a candidate key inside a flow collection can be given up (or rejected) because of its length or line span: "
+              "a long or multi-line JSON member name stops being a key", site=ssk.span)
     # dispatch of ':' in fetch_next_token
     fnt = F.fn(S + "fetch_next_token")
     fv = [bb for bb, t, ck, fr in fnt.calls() if ck == S + "fetch_flow_value"]
